@@ -370,6 +370,12 @@ func expectation(cont, key stick.Value, args []stick.Value) (mode expMode, cands
 				}()
 			}
 		}
+		if key == nil && kt.Kind() == reflect.Interface {
+			// nil is a key like any other of a map keyed by an interface type
+			if e := rv.MapIndex(reflect.Zero(kt)); e.IsValid() {
+				return loosen(mustElem), []interface{}{e.Interface()}
+			}
+		}
 		if haveExact {
 			return loosen(mustElem), []interface{}{exact}
 		}
